@@ -394,6 +394,13 @@ impl MH {
             MH::C(_) => None,
         }
     }
+    /// captures recorded so far, in order (Rust matchers only)
+    pub fn captures(&self) -> Option<Vec<(String, Vec<u8>)>> {
+        match self {
+            MH::R(m) => Some(m.captures().to_vec()),
+            MH::C(_) => None,
+        }
+    }
     pub fn invalidate_bias_cache(&mut self) {
         if let MH::R(m) = self {
             m.invalidate_bias_cache()
